@@ -222,18 +222,46 @@ func (x *Exec) Discharge(cfg *SolverCfg) []*Result {
 	close(ch)
 	wg.Wait()
 	// second chance: an obligation that was only UNDECIDED (solver timeout, e.g. on a loaded
-	// machine) is retried alone with a much longer timeout before it is reported
+	// machine) is retried with a much longer timeout before it is reported. The budget is small
+	// (at most 4 obligations per call, all at once, 3x the timeout): many undecided obligations are not a load
+	// effect, and a changed function must not make the check run for an hour.
+	var retry []job
 	for _, j := range jobs {
-		r := results[j.i]
-		if r.Verdict != Undecided || r.Obl.Cover {
-			continue
+		if r := results[j.i]; r.Verdict == Undecided && !r.Obl.Cover {
+			retry = append(retry, j)
 		}
-		file := filepath.Join(tmp, fmt.Sprintf("retry%d.smt2", j.i))
-		os.WriteFile(file, []byte(j.script), 0o644)
-		long := &SolverCfg{Timeout: cfg.Timeout * 6, Workers: 1}
-		first := r.Seconds
-		r.Seconds = 0
-		runPortfolio(long, r, file)
+	}
+	if len(retry) > 4 {
+		retry = retry[:4]
+	}
+	if len(retry) > 0 {
+		long := &SolverCfg{Timeout: cfg.Timeout * 3, Workers: 4}
+		rch := make(chan job)
+		var rwg sync.WaitGroup
+		for w := 0; w < 4; w++ {
+			rwg.Add(1)
+			go func() {
+				defer rwg.Done()
+				for j := range rch {
+					r := results[j.i]
+					file := filepath.Join(tmp, fmt.Sprintf("retry%d.smt2", j.i))
+					os.WriteFile(file, []byte(j.script), 0o644)
+					first := r.Seconds
+					r.Seconds = 0
+					runPortfolio(long, r, file)
+					r.Seconds += first
+					if r.Verdict == Proved {
+						r.Solver += "(retry)"
+					}
+					os.Remove(file)
+				}
+			}()
+		}
+		for _, j := range retry {
+			rch <- j
+		}
+		close(rch)
+		rwg.Wait()
 		for k, v := range long.TimeBySol {
 			cfg.addTime(k, v)
 		}
@@ -242,11 +270,6 @@ func (x *Exec) Discharge(cfg *SolverCfg) []*Result {
 				cfg.count(k)
 			}
 		}
-		r.Seconds += first
-		if r.Verdict == Proved {
-			r.Solver += "(retry)"
-		}
-		os.Remove(file)
 	}
 	if cfg.KeepDir != "" {
 		for _, r := range results {
